@@ -25,8 +25,8 @@ RULE += (" Added after seeded defects: the respacing known finding is classified
 ASSUMPTIONS = ["no literal contains an unpaired quote or a backslash", "a literal is placed on one line (no TAB/newline directly before it: C05 owns that)"]
 MIN_EVENTS = {"statements": 100, "run_return": 100}
 
-CLEAN = "abcdefgXYZ019 _-.:;%$!?/#*&|@~+<>[]{}"
-WORDS = ["CREATE", "table", "not null", "--", "select", "Primary Key", "''", "x", "a;b", "DROP TABLE t;", "NULL", "default", "-- c", "check", "key", "in", "As"]
+CLEAN = "abcdefghijklmnopqrstuvwxyzABCDEFGHIJKLMNOPQRSTUVWXYZ0123456789 _-.:;%$!?/#*&|@~+<>[]{}\""
+WORDS = ["N", "Y/N", "TYPE N", "E", "X", "B", "U&", "R", "say \"hi\" -- ok", "15\" -- diagonal", "\"quoted\" word", "CREATE", "table", "not null", "--", "select", "Primary Key", "''", "x", "a;b", "DROP TABLE t;", "NULL", "default", "-- c", "check", "key", "in", "As"]
 BAD_FEATURES = {
     "comma": [", ", ",", " ,"], "lpar": ["(", " (", "( ", "f(x", "(1"], "rpar": [")", " )", ")x", "1)", ":-)", ") "], "eq": ["=", "a=b", " = "], "tab": ["\t"],
     "nonascii": ["ï", "é", "日本", "ß", "Ж"], "blockopen": ["/*"], "blockclose": ["*/"],
